@@ -9,7 +9,7 @@ use shred::{Dispatcher, World};
 use crate::ctx::*;
 use crate::layout::{recover, Layout};
 use crate::plan::*;
-use crate::res::full_world;
+use crate::res::full_world_with;
 use crate::sys::{instantiate, make_pool, Pool};
 
 #[derive(Clone, Copy, PartialEq, Eq, Debug)]
@@ -162,7 +162,7 @@ pub fn build(plan: &Plan, pool: Option<&Pool>, pool_size: usize, extra_log: usiz
         Ok(d) => d,
         Err(p) => return Err(format!("builder panicked: {}", payload_str(&*p))),
     };
-    let world = full_world();
+    let world = full_world_with(plan.slots_used().into_iter());
     let layout = recover(&mut disp, &ctx, &world).map_err(|e| format!("LAYOUT:{}", e))?;
     #[cfg(feature = "parallel")]
     let mt = Some(disp.max_threads());
@@ -208,6 +208,28 @@ impl Inst {
         ctx.set_mode(Mode::Build);
         r.err().map(|p| payload_str(&*p))
     }
+}
+
+/// A long history: `n` unmonitored calls in a row on one dispatcher. After every single call every
+/// system must have run exactly as often as the count model says (counters that wrap, caches
+/// that go stale after thousands of calls). Returns the first deviation (call index, message).
+pub fn soak(inst: &mut Inst, m: DMode, n: usize) -> Option<(usize, String)> {
+    use std::sync::atomic::Ordering::SeqCst;
+    let per = expected_counts(&inst.plan, m, inst.plan.n_uids());
+    let mut want = inst.ctx.run_counts();
+    for i in 0..n {
+        if let Some(p) = inst.run_quiet(m) {
+            return Some((i, format!("call #{} of the history panicked: {}", i + 1, p)));
+        }
+        for (u, w) in want.iter_mut().enumerate() {
+            *w += per[u];
+            let got = inst.ctx.runs[u].load(SeqCst);
+            if got != *w {
+                return Some((i, format!("after call #{} of the history ({}) system u{} has run {} times, the count model says {}", i + 1, m.name(), u, got, *w)));
+            }
+        }
+    }
+    None
 }
 
 pub fn call(d: &mut Dispatcher<'static, 'static>, world: &World, m: DMode) {
